@@ -9,10 +9,9 @@ import itertools
 import numpy as np
 from common import *
 
-IMPORTS = "From QE Require Import Base.Pivot C04.Model Gen.Consts."
+IMPORTS = "From QE Require Import Base.Pivot C04.Model C04.Proofs C04.ProofsMM2 Gen.Consts."
 PREAMBLE = """
 Definition opts : @PivOptions Q := {| fea_tol := lp_FEA_TOL; tol_piv := lp_TOL_PIV; tol_ratio_diff := lp_TOL_RATIO_DIFF |}.
-Definition opts0 : @PivOptions Q := {| fea_tol := 0%Q; tol_piv := 0%Q; tol_ratio_diff := 0%Q |}.
 Definition optsF : @PivOptions float := {| fea_tol := lp_FEA_TOL_f; tol_piv := lp_TOL_PIV_f; tol_ratio_diff := lp_TOL_RATIO_DIFF_f |}.
 Definition tolc : Q := (1 # 1000000000).
 Definition LPQ : Type := (list Q * nat * nat * list (list Q) * list Q * list (list Q) * list Q * nat * (list Q * list Q * Q * bool * nat * nat))%type.
@@ -380,8 +379,23 @@ def gen_games(rng, thorough):
 
 
 # ---------------------------------------------------------------- run
+def warmup():
+    """compile / load the jitted entry points once; the numba cache directory is shared with concurrently running
+    checks, so a cache race (OSError) is retried instead of being mistaken for a result"""
+    import time
+    for attempt in range(6):
+        try:
+            run_minmax([[Fraction(1), Fraction(2)], [Fraction(3), Fraction(0)]])
+            run_lp(dict(c=[Fraction(1)], A_ub=[[Fraction(1)]], b_ub=[Fraction(1)], A_eq=[], b_eq=[], max_iter=10))
+            return
+        except OSError:
+            time.sleep(1.0 + attempt)
+    raise RuntimeError("numba cache unusable after retries")
+
+
 def run(ctx):
     thorough = ctx.tier == "thorough"
+    warmup()
     ctx.proofs()
     lps = fixed_lps() + [gen_lp(ctx.rng) for _ in range(2400 if thorough else 520)]
     cases, fcases, outs = [], [], []
@@ -456,6 +470,8 @@ def run(ctx):
             out = run_minmax(A, mi)
             if any(v != v or abs(v) == math.inf for v in [out[0]] + out[1] + out[2]):
                 raise ArithmeticError("non-finite output %r" % (out,))
+        except OSError:                 # file-system trouble of the shared numba cache: machinery, not the property
+            raise
         except Exception as e:          # any exception / non-finite value on a valid payoff matrix violates the property
             ctx.case(("minmax", tuple(map(tuple, A))), nontrivial=(m >= 2 and n >= 2))
             ctx.count("minmax:" + tag)
@@ -482,6 +498,13 @@ def run(ctx):
     ctx.count("minmax_exactQ_path_differs_from_float_path", len(bad))
     ctx.count("minmax_exactQ_same_strategies", len(cases) - len(bad))
     badw = ctx.coq_check("minmax_exactQ_value", IMPORTS, "MMQ", "mm_ok_weak opts", [cases[i] for i in bad], chunk=40, preamble=PREAMBLE)
+    # hypothesis of theorem C04_minmax_certificate: the inner solve_tableau ends with status 0 (tolerance 0) -- measured
+    bad_st = ctx.coq_check("minmax_inner_status0_tol0", IMPORTS, "MMQ",
+                           "fun c => let '(m, n, A, mi, _) := c in Nat.eqb (minmax_inner_status m n A mi) 0", cases, chunk=40, preamble=PREAMBLE)
+    ctx.count("minmax_inner_status_nonzero(tol0)", len(bad_st))
+    ctx.count("minmax_inner_status_zero(tol0)", len(cases) - len(bad_st))
+    bad_t0 = ctx.coq_check("minmax_tol0", IMPORTS, "MMQ", "mm_ok opts0", cases, chunk=40, preamble=PREAMBLE)
+    ctx.count("minmax_tol0_run_differs", len([i for i in bad_t0 if i not in set(bad)]))
     for j in badw:
         A, tag, out = meta[bad[j]]
         model = ctx.coq_eval(IMPORTS, "minmax %s %s %s 1000 opts" % (natlit(len(A)), natlit(len(A[0])), qlist2(A)), preamble=PREAMBLE)
